@@ -135,7 +135,9 @@ def main():
                 continue
             gen, go, lean, stats = stream_cmds(s, prop, seed, tier, workdir)
             st = lib.run_stream(s["name"], gen, go, lean, workdir)
-            n, flagged, diffs, smp, dn = lib.compare_stream(st, cfg["flag"], diff_violation=cfg.get("diff_violation"))
+            n, flagged, diffs, smp, dn = lib.compare_stream(st, cfg["flag"], diff_violation=cfg.get("diff_violation"), diff_ignore=cfg.get("diff_ignore"))
+            if st.get("ignored"):
+                dist[s["name"] + ".outside_model_domain"] = st["ignored"]
             total += n; flagged_n += len(flagged); diff_n += len(diffs); distinct += dn
             samples += smp[:6]
             first_diffs += [d for d in diffs if d][:5]
